@@ -55,6 +55,9 @@ MAKERS = {
                                                         best_effort_memory_usage_reduction=True, graft_type=ds.GraftingType.RMSPROP),
     "tearfree_shampoo_intervals": tf(second_order.SecondOrderType.SHAMPOO, stats_freq=2),
     "tearfree_sketchy_intervals": tf(second_order.SecondOrderType.SKETCHY, sk_freq=2),
+    "ds_rmsprop_graft": lambda: ds.distributed_shampoo(0.1, block_size=4, start_preconditioning_step=2, graft_type=ds.GraftingType.RMSPROP,
+                                                       beta2=0.99),
+    "ds_adagrad_graft": lambda: ds.distributed_shampoo(0.1, block_size=4, start_preconditioning_step=2, graft_type=ds.GraftingType.ADAGRAD),
     "sm3": lambda: sm3.sm3(0.1),
     "tearfree_shampoo": tf(second_order.SecondOrderType.SHAMPOO),
     "tearfree_sketchy": tf(second_order.SecondOrderType.SKETCHY),
